@@ -54,6 +54,51 @@ class Effects:
         self.cg = cg
         self._cache: Dict[str, List[Write]] = {}
 
+    def attr_aliases(self, cls) -> Dict[str, Tuple]:
+        """self.<A> of a class that is bound, in one of its methods, to the value of another object's attribute
+        (self._factors = block.act_design): A -> (root text, attribute, class of the root or None).  A mutation of self.A is
+        then a mutation of that attribute's value."""
+        key = "alias:" + cls.fq
+        if key in self._cache:
+            return self._cache[key]          # type: ignore
+        out: Dict[str, Tuple] = {}
+        held: Dict[str, object] = {}         # self.B = <typed name>  ->  class
+        for m in cls.methods.values():
+            if isinstance(m.node, ast.Lambda) or not m.node.args.args:
+                continue
+            sn = m.node.args.args[0].arg
+            types = self.cg._local_types(m)
+            for n in walk_body(m.node, include_lambdas=False):
+                if isinstance(n, ast.Assign) and len(n.targets) == 1 and isinstance(n.targets[0], ast.Attribute) and dotted(n.targets[0].value) == sn:
+                    v = n.value
+                    if isinstance(v, ast.Call) and isinstance(v.func, ast.Name) and v.func.id == "cast" and len(v.args) == 2:
+                        v = v.args[1]
+                    if isinstance(v, ast.Name) and v.id in types:
+                        held[n.targets[0].attr] = types[v.id]
+        for m in cls.methods.values():
+            if isinstance(m.node, ast.Lambda) or not m.node.args.args:
+                continue
+            sn = m.node.args.args[0].arg
+            types = self.cg._local_types(m)
+            for n in walk_body(m.node, include_lambdas=False):
+                if isinstance(n, ast.Assign) and len(n.targets) == 1 and isinstance(n.targets[0], ast.Attribute) and dotted(n.targets[0].value) == sn:
+                    v = n.value
+                    if isinstance(v, ast.Call) and isinstance(v.func, ast.Name) and v.func.id == "cast" and len(v.args) == 2:
+                        v = v.args[1]
+                    d = dotted(v)
+                    if not d or "." not in d or _is_fresh_value(v, self.repo, m.module):
+                        continue
+                    root, attr = d.rsplit(".", 1)
+                    rc = None
+                    if root in types:
+                        rc = types[root]
+                    elif root.startswith(sn + ".") and root.count(".") == 1 and root.split(".")[1] in held:
+                        rc = held[root.split(".")[1]]
+                    if rc is not None:
+                        out[n.targets[0].attr] = (root, attr, rc)
+        self._cache[key] = out               # type: ignore
+        return out
+
     def writes(self, f: FunctionInfo) -> List[Write]:
         if f.fq in self._cache:
             return self._cache[f.fq]
@@ -197,6 +242,11 @@ class Effects:
                 out.append(Write(f, node, canon, "attr:" + base_kind, attr, kind, via, cls))
             else:
                 out.append(Write(f, node, canon, rk, attr, kind, via, cls))
+            # the written attribute of self holds another object's attribute value: mutating it in place mutates that object
+            if canon == selfname and selfcls is not None and kind != "assign":
+                al = self.attr_aliases(selfcls).get(attr)
+                if al is not None:
+                    out.append(Write(f, node, al[0], "attr-alias", al[1], kind, "%s.%s" % (selfname, attr), al[2]))
 
         def target(t: ast.AST, node, kind: str):
             if isinstance(t, ast.Attribute):
